@@ -140,6 +140,55 @@ def options_vs_coords(rng):
     return None
 
 
+def options_connectivity(rng):
+    """motions requested through the options that decide which ends meet: a half of a dipole written somewhere else and
+    moved into place with a per-object --geo-translate (and the converse: written in place, moved away); a loop of an arc
+    and a straight wire translated as a whole; each compared with the same structure written into the coordinates
+    (exactly representable numbers): same number of unknowns, same feed impedance"""
+    from common import run_main
+    g17 = lambda v: ','.join('%.17g' % x for x in v)
+    f = 14.0
+    h = 5.0
+    dx, dy, dz = (rng.choice([1.0, -2.0, 0.5, 3.0]) for _ in range(3))
+    kind = rng.choice(['join', 'join', 'leave', 'loop', 'loop-rot'])
+    if kind in ('join', 'leave'):
+        a = ['-w', '1,5,0,0,0,0,0,%g,.01' % h]
+        place = [0, 0, h, 0, 0, 2 * h] if kind == 'join' else [0, 0, h + dz, 0 + dx, 0 + dy, 2 * h + dz]
+        # variant A: written at its final place
+        fin = [0, 0, h, 0, 0, 2 * h] if kind == 'join' else place
+        argvA = ['-f', '%g' % f] + a + ['-w', '2,5,%s,.01' % g17(fin), '--excitation-pulse=3']
+        if kind == 'join':
+            away = [fin[0] + dx, fin[1] + dy, fin[2] + dz, fin[3] + dx, fin[4] + dy, fin[5] + dz]
+            argvB = ['-f', '%g' % f] + a + ['-w', '2,5,%s,.01' % g17(away), '--geo-translate=1,%s,2' % g17([-dx, -dy, -dz]),
+                                          '--excitation-pulse=3']
+        else:
+            touching = [0, 0, h, dx, dy, 2 * h]     # shares the end (0,0,h) before it is moved away
+            fin = [touching[0] + 2.0, touching[1], touching[2] + 1.0, touching[3] + 2.0, touching[4], touching[5] + 1.0]
+            argvA = ['-f', '%g' % f] + a + ['-w', '2,5,%s,.01' % g17(fin), '--excitation-pulse=3']
+            argvB = ['-f', '%g' % f] + a + ['-w', '2,5,%s,.01' % g17(touching), '--geo-translate=1,2,0,1,2', '--excitation-pulse=3']
+    else:
+        R = 2.0
+        arc = ['-a', '1,8,%g,90,270,.01' % R]
+        wire = ['-w', '2,4,0,0,%g,0,0,%g,.01' % (R, -R)]
+        t = [dx, dy, dz]
+        rot = [0.0, 0.0, 90.0] if kind == 'loop-rot' else None
+        argvB = ['-f', '%g' % f] + arc + wire + (['--geo-rotate=1,%s' % g17(rot)] if rot else []) + \
+                ['--geo-translate=2,%s' % g17(t), '--excitation-pulse=2,2']
+        # variant A: the loop at the origin (the property: translation changes nothing)
+        argvA = ['-f', '%g' % f] + arc + wire + ['--excitation-pulse=2,2']
+    ma = run_main(argvA, want_mininec=True)['m']; mb = run_main(argvB, want_mininec=True)['m']
+    if ma is None or mb is None:
+        return 'options or coordinates rejected (%s)' % kind, (argvA, argvB)
+    if len(ma.pulses) != len(mb.pulses):
+        return ('%s: the structure written into the coordinates has %d unknowns, the same structure obtained through the '
+                'options has %d' % (kind, len(ma.pulses), len(mb.pulses))), (argvA, argvB)
+    ma.compute(); mb.compute()
+    za, zb = ma.sources[0].impedance, mb.sources[0].impedance
+    if abs(za - zb) > 5e-4 * abs(za):
+        return '%s: feed impedance %r written into the coordinates, %r through the options' % (kind, za, zb), (argvA, argvB)
+    return None, (argvA, argvB)
+
+
 R90 = np.array([[0.0, -1.0, 0.0], [1.0, 0.0, 0.0], [0.0, 0.0, 1.0]])
 
 
@@ -201,6 +250,20 @@ def nearmiss_cases(rng):
 
 
 def replay(rp):
+    if rp.get('kind') == 'options-connectivity':
+        from common import run_main
+        ma = run_main(rp['argv_coordinates'], want_mininec=True)['m']; mb = run_main(rp['argv_options'], want_mininec=True)['m']
+        bad = None
+        if ma is None or mb is None:
+            bad = 'rejected'
+        elif len(ma.pulses) != len(mb.pulses):
+            bad = '%d vs %d unknowns' % (len(ma.pulses), len(mb.pulses))
+        else:
+            ma.compute(); mb.compute()
+            if abs(ma.sources[0].impedance - mb.sources[0].impedance) > 5e-4 * abs(ma.sources[0].impedance):
+                bad = 'impedance %r vs %r' % (ma.sources[0].impedance, mb.sources[0].impedance)
+        print('replay ->', bad or 'property holds')
+        return 1 if bad else 0
     if 'ant' not in rp:
         print('replay: nothing to execute:', rp.get('kind'))
         return 1
@@ -253,6 +316,12 @@ def run(ck):
         bad = property_on_impl(ant, ss, R, t, sc)
         if bad:
             viol.append(dict(kind='motion', ant=ant, src_seed=ss, R=R.tolist(), t=t.tolist(), s=sc, observed=bad))
+    for i in range(10 if ck.tier == 'quick' else 60):
+        bad, argvs = options_connectivity(rng)
+        ck.case(('options-connectivity', i), True)
+        ck.count('options_connectivity_cases')
+        if bad:
+            viol.append(dict(kind='options-connectivity', observed=bad, argv_coordinates=argvs[0], argv_options=argvs[1]))
     for i in range(10 if ck.tier == 'quick' else 100):
         bad = options_vs_coords(rng)
         ck.case(('options', i), True)
